@@ -79,7 +79,9 @@ def judge_case(col: common.Collector, ll: codecrun.LoadedLayer, msg: Dict[str, A
     if kind != "ok":
         col.count("not-canonical:" + kind)
         return
-    if enc.overlap or enc.endmarker:
+    if (enc.overlap or enc.endmarker) and not (enc.endmarker and not enc.conflict):
+        # (an end-marker field followed by its marker as a constant claims the marker's bits
+        # twice with the same value: that PDU is as canonical as any)
         col.count("not-canonical:overlap")
         return
     P = enc.pdu
